@@ -38,7 +38,7 @@ def chains_upto(alpha, n):
     return [b";".join(c) for c in out]
 
 
-def random_chain(rng, alpha, limit):
+def random_chain(rng, alpha, limit, wild=False):
     """up to 20 elements, stray semicolons, long arguments; total length below `limit`"""
     n = rng.choice([0, 1, 2, 3, 5, 8, 13, 20])
     parts = []
@@ -55,8 +55,12 @@ def random_chain(rng, alpha, limit):
             e = bytes(rng.choice(b"abcdefghijklmnopqrstuvwxyz_:") for _ in range(rng.choice([1, 4, 9, 17])))
         elif r < 0.93:
             e = rng.choice([b"only_root", b"only_uid", b"noop", b"exclude_uid"])[: rng.choice([3, 5, 8])] + rng.choice([b"", b":0", b"x"])   # prefixes / near names
-        else:
+        elif r < 0.97 or not wild:
             e = rng.choice([b":", b"::", b":only_root", b"only_root:", b"ONLY_ROOT", b"only_root:only_uid:0"])
+        else:
+            # bytes outside the grammar: blanks, control and 8-bit bytes next to / inside known names (all are unknown names)
+            e = rng.choice([b" only_root", b"only_root ", b"\tonly_tty", b"only_uid :0", b"only_uid: 0", b"only\xffroot", b"\xc3\xb6nly_root", b"\x01", b"only_root\r",
+                            b"exclude_uid:\xff", b"noop:\x80\x81", b"# only_root", b"\"only_root\""])
         parts.append(e)
     s = b""
     for i, e in enumerate(parts):
@@ -226,3 +230,27 @@ def shrink_list(items, still_fails, budget=48):
                 break
             n = min(len(items), n * 2)
     return items
+
+
+def boundary_chains(limit, uid_pass, uid_drop):
+    """chains whose deciding element sits at the very end of a chain of exactly L bytes, L around powers of two and the
+    configuration-line limit: many short elements, one long argument, one long unknown name; a long uid list whose last entry decides"""
+    out = []
+    Ls = sorted(set(x for x in [16, 63, 64, 65, 100, 127, 128, 129, 255, 256, 257, 500, 511, 512, 513, 767, 1000, limit - 24, limit - 3, limit - 2, limit - 1] if 14 < x < limit))
+    for L in Ls:
+        for tail in (b"only_uid:%d" % uid_drop, b"exclude_uid:%d" % uid_pass):       # both drop for a process with real uid uid_pass
+            room = L - len(tail) - 1
+            if room < 0:
+                continue
+            out.append((b"noop;" * (room // 5 + 1))[:room] + b";" + tail)                       # many short elements
+            if room >= 6:
+                out.append(b"noop:" + b"a" * (room - 5) + b";" + tail)                          # one long argument
+                out.append(b"q" * room + b";" + tail)                                           # one long unknown name without colon
+                out.append(b"q" * (room - 2) + b":z;" + tail)                                   # one long unknown name with colon
+        # the whole list must be read: the only matching entry is the last one
+        for head in (b"only_uid:", b"exclude_uid:"):                                           # passes / drops
+            room = L - len(head) - len(b"%d" % uid_pass) - 1
+            if room >= 1:
+                filler = ((b"%d," % uid_drop) * (room // (len(b"%d" % uid_drop) + 1) + 1))[:room].rstrip(b",")
+                out.append(head + filler + b"," + b"%d" % uid_pass)
+    return out
